@@ -44,20 +44,20 @@ Qed.
 (** "trial t shows combination di" on the grid and on the sequence *)
 Lemma cbit_combo s q di t :
   onehot fb s q -> t < T fb ->
-  Forall (fun f => f < nf fb) (map fst di) ->
+  Forall (fun f => isact fb f = true) (map fst di) ->
   Forall (fun p => snd p < nlevels fb (fst p)) di ->
   combo_eqb (map snd di) (combo_at q (map fst di) t) = cbit fb s di t.
 Proof.
-  intros (_ & _ & _ & Hb) Ht Hf Hl. unfold combo_eqb, combo_at. rewrite list_eqb_combo. unfold cbit.
+  intros (_ & _ & _ & Hb & _) Ht Hf Hl. unfold combo_eqb, combo_at. rewrite list_eqb_combo. unfold cbit.
   apply forallb_ext_in. intros p Hp.
-  assert (Hfp : fst p < nf fb) by (apply (proj1 (Forall_forall _ _) Hf); now apply in_map).
+  assert (Hfp : isact fb (fst p) = true) by (apply (proj1 (Forall_forall _ _) Hf); now apply in_map).
   rewrite (Hb t (fst p) (snd p) Ht Hfp (proj1 (Forall_forall _ _) Hl p Hp)). unfold is_level. apply cell_eqb_sym.
 Qed.
 
 (** no trial of the grid shows a combination the crossing excludes (proved from
     the Exclude and Derivation constraints in Encode/F1Excl.v) *)
 Definition NoExcl (s : asg) : Prop :=
-  forall c di t, Forall (fun f => f < nf fb) c -> In di (crossing_combos fb c) -> t < T fb ->
+  forall c di t, Forall (fun f => isact fb f = true) c -> In di (crossing_combos fb c) -> t < T fb ->
     cbit fb s di t = true -> is_excluded_or_inconsistent fb di = false.
 
 Lemma tcs_sub c di : In di (trial_combinations_of fb c) -> In di (crossing_combos fb c).
@@ -65,14 +65,14 @@ Proof. unfold trial_combinations_of. intros H. apply filter_In in H. apply H. Qe
 
 (** on a complete sequence every trial shows some admitted combination *)
 Lemma onehot_matched s q c t (mul : list (nat * nat) -> nat) :
-  onehot fb s q -> NoExcl s -> Forall (fun f => f < nf fb) c -> t < T fb ->
+  onehot fb s q -> NoExcl s -> Forall (fun f => isact fb f = true) c -> t < T fb ->
   existsb (fun cm : list nat * nat => combo_eqb (fst cm) (combo_at q c t))
           (map (fun di => (map snd di, mul di)) (trial_combinations_of fb c)) = true.
 Proof.
   intros Ho Hne Hf Ht. pose proof Ho as (_ & _ & Hc & _). apply existsb_exists.
   set (lv := fun f => match get_cell q f t with Some l => l | None => 0 end).
   assert (Hlv : forall f, In f c -> lv f < nlevels fb f /\ get_cell q f t = Some (lv f)).
-  { intros f Hin. destruct (Hc t f Ht (proj1 (Forall_forall _ _) Hf f Hin)) as (l & Hl & El).
+  { intros f Hin. destruct (Hc t f Ht (f1_act_lt fb HF1 f (proj1 (Forall_forall _ _) Hf f Hin))) as (l & Hl & El).
     unfold lv. rewrite El. split; [exact Hl|reflexivity]. }
   set (di0 := map (fun f => (f, lv f)) c).
   assert (Hfst : map fst di0 = c) by (unfold di0; rewrite map_map; cbn [fst]; apply map_id).
